@@ -9,6 +9,9 @@ CONTRACTS = []
 
 # ------------------------------------------------------------------------------------ spec functions
 def _type(v):
+    from formulas.tokens.operand import XlError
+    if isinstance(v, XlError):
+        return 3            # an error value is of no comparable type: it satisfies no criterion
     if isinstance(v, bool):
         return 2
     if isinstance(v, str):
@@ -282,13 +285,17 @@ def _cases(tier, rng):
         res = [rng.choice(['r%d' % i, i * 10, True]) for i in range(k)]
         val = rng.choice([keys[0] - 1, keys[-1] + 1, rng.choice(keys), rng.choice(keys) + 0.25])
         out.append(('lookup', 'LOOKUP', val, (keys, res), 0, True))
-    crits = [2, 0, '>1', '>=2', '<2', '<=2', '<>2', '=2', 'a', 'A', '<>a', '=b', 'a*', '?b', '*', '<>a*', True, '>a', '<b',
+    crits = [2, 0, 1, 1, True, False, '>1', '>=2', '<2', '<=2', '<>2', '=2', 'a', 'A', '<>a', '=b', 'a*', '?b', '*', '<>a*', True, '>a', '<b',
              '=a*', '=?b', '=*b', '=a~*', 'a~*', '=*', '=3.5', '>=a', '<=ab', '=TRUE', '<>']
     for _ in range(n):
         k = rng.randrange(1, 7)
-        cells = [rng.choice([1, 2, 2, 3.5, -1, 'a', 'A', 'b', 'ab', 'cb', 'a*', True, False, sh.EMPTY]) for _ in range(k)]
+        cells = [rng.choice([1, 2, 2, 3.5, -1, 'a', 'A', 'b', 'ab', 'cb', 'a*', True, False, sh.EMPTY, 1.0, 0]) for _ in range(k)]
         sums = [rng.choice([1, 2, 10, 0.5, 'x', sh.EMPTY, -4]) for _ in range(k)]
-        out.append(('crit', cells, rng.choice(crits), sums))
+        crit = rng.choice(crits)
+        if rng.random() < 0.08 and crit in (2, 0, 1, '>1', '>=2', '<2', '<=2', '=2'):
+            from formulas.tokens.operand import NA, DIV
+            cells[rng.randrange(k)] = rng.choice([NA, DIV])          # an error cell in the tested range satisfies no numeric criterion
+        out.append(('crit', cells, crit, sums))
     for _ in range(n // 5):
         nr, nc = rng.choice([(2, 2), (3, 3), (2, 3), (3, 2), (4, 4), (1, 3), (3, 1)])
         grid = tuple(tuple(rng.choice([1, 2, 3.5, -1, 'a', 'b', 5, 0]) for _ in range(nc)) for _ in range(nr))
@@ -314,6 +321,9 @@ def _check(case):
 
 def _classify(case, detail):
     if case[0] == 'crit':
+        from formulas.tokens.operand import XlError
+        if any(isinstance(v, XlError) for v in case[1]) and '#VALUE!' in detail:
+            return 'KF-C19-3'
         # the failing case is explained exactly by a known deviation of the code
         for fid, flags in (('KF-C19-1', dict(case_sensitive=True)), ('KF-C19-2', dict(ne_within_type=True)),
                            ('KF-C19-2+l', dict(ne_within_type=True, ne_literal=True)),
